@@ -28,7 +28,8 @@
 (*     puts in kwargs.                                                     *)
 (* Deviations: "nullskips" (seeded shape: explicit null replaced by the    *)
 (* default), "directbases" (seeded shape: only direct interface bases),    *)
-(* "enumdefault" (pinned tree, known finding: the default handed to        *)
+(* "ehcatchesargs" (seeded shape: an error_handler swallows argument       *)
+(* errors), "enumdefault" (pinned tree, known finding: the default handed to        *)
 (* graphql-core for an Enum-typed argument / input field is the serialized *)
 (* VALUE, which reaches the resolver as a raw string).                     *)
 (***************************************************************************)
@@ -122,10 +123,11 @@ ImplementsClosed(M, n) ==
 \* 2. EXECUTION: selecting every field
 
 RECURSIVE GSer(_, _, _)
-RECURSIVE GSerObj(_, _)
-GSerObj(M, v) ==
-  LET fs == AllFields(M, v.cls)
-      one(f) == IF f.flat THEN GSerObj(M, Get(v.f, f.name)).o
+RECURSIVE GSerObj(_, _, _)
+\* the fields of class n read on the instance v (v may be an instance of a subclass of n)
+GSerObj(M, n, v) ==
+  LET fs == AllFields(M, n)
+      one(f) == IF f.flat THEN GSerObj(M, f.t.n, Get(v.f, f.name)).o
                 ELSE << <<FName(f), GSer(M, f.t, Get(v.f, f.name))>> >>
   IN DObj(FlattenSeq([i \in DOMAIN fs |-> one(fs[i])]))
 GSer(M, T, v) ==
@@ -133,7 +135,10 @@ GSer(M, T, v) ==
     [] T.k = "list" -> DArr([i \in DOMAIN v.a |-> GSer(M, T.e, v.a[i])])
     [] T.k = "enum" -> [k |-> "ename", m |-> v.m]          \* the NAME, through enum_aliaser
     [] T.k = "lit"  -> [k |-> "ename", m |-> v.s]          \* Literal values are their own names
-    [] T.k \in {"obj", "uni"} -> GSerObj(M, v)             \* the runtime class decides
+    \* a concrete object type is what the annotation says, whatever subclass the value is an instance
+    \* of (as serialize(T, v) does); behind an interface or a union the runtime class decides
+    [] T.k = "obj"  -> IF M.ct[T.n].kind = "interface" THEN GSerObj(M, v.cls, v) ELSE GSerObj(M, T.n, v)
+    [] T.k = "uni"  -> GSerObj(M, v.cls, v)
     [] OTHER -> v
 
 ---------------------------------------------------------------------------
@@ -177,6 +182,8 @@ PyDefault == [kind |-> "default", v |-> DNull]
 Supplies(ds) == {[k |-> "omitted"], [k |-> "given", d |-> DNull]} \cup {[k |-> "given", d |-> d] : d \in ds}
 
 \* Layer R
+\* p.eh \in {"unset", "none", "custom"}: the error_handler of the operation.  It handles the errors
+\* of the RESOLVER; an invalid argument is a GraphQL error whatever the handler (ArgR does not read it).
 ArgR(M, p, sup) ==
   IF sup.k = "omitted"
   THEN IF p.def.k = "req" THEN (IF IsOptional(p.t) THEN ArgOk(DNull) ELSE ArgErr) ELSE PyDefault
@@ -186,7 +193,9 @@ ArgR(M, p, sup) ==
             ELSE ArgErr                                                    \* non-null in the schema: graphql-core rejects the query
        ELSE ADeser(M, p.t, sup.d)
 
-\* Layer M: graphql-core builds kwargs (argument given, or default_value injected), then resolve()
+\* Layer M: graphql-core builds kwargs (argument given, or default_value injected), then resolve().
+\* p.pos = "afterinfo": the parameter follows a GraphQLResolveInfo parameter in the signature; the
+\* pinned tree stopped publishing arguments there (deviation "infobreak", repaired)
 RECURSIVE HasEnum(_)
 HasEnum(T) == CASE T.k = "enum" -> TRUE [] T.k \in {"opt", "und", "list"} -> HasEnum(T.e) [] OTHER -> FALSE
 ArgM(M, p, sup) ==
@@ -195,12 +204,18 @@ ArgM(M, p, sup) ==
       required == p.def.k = "req"
       inKwargs == sup.k = "given" \/ p.def.k = "val"
       value    == IF sup.k = "given" THEN sup.d ELSE [k |-> "injected"]
-  IN IF sup.k = "omitted" /\ required /\ ~nullableInSchema THEN ArgErr          \* query validation
+  IN IF "infobreak" \in Deviations /\ p.pos = "afterinfo"
+     THEN (IF sup.k = "given" THEN ArgErr ELSE IF required THEN [kind |-> "crash", v |-> DNull] ELSE PyDefault)
+     ELSE
+     IF sup.k = "omitted" /\ required /\ ~nullableInSchema THEN ArgErr          \* query validation
      ELSE IF sup.k = "given" /\ sup.d.k = "null" /\ ~nullableInSchema THEN ArgErr
      ELSE IF inKwargs
           THEN IF value.k = "null" /\ (IF "nullskips" \in Deviations THEN ~required ELSE ~optParam) THEN PyDefault
                ELSE IF value.k = "injected"
                     THEN IF "enumdefault" \in Deviations /\ HasEnum(p.t) THEN [kind |-> "raw", v |-> DNull] ELSE PyDefault
-                    ELSE ADeser(M, p.t, value)
+                    ELSE LET r == ADeser(M, p.t, value) IN
+                         \* deviation "ehcatchesargs" (seeded shape): the handler swallows the argument error
+                         IF r.kind = "error" /\ "ehcatchesargs" \in Deviations /\ p.eh # "unset"
+                         THEN [kind |-> "handled", v |-> DNull] ELSE r
           ELSE IF optParam /\ required THEN ArgOk(DNull) ELSE PyDefault
 =============================================================================
